@@ -309,7 +309,13 @@ pub struct DocDe<'a> {
 }
 impl<'a> DocDe<'a> {
     fn go<'de, V: Visitor<'de>>(self, v: V) -> Result<V::Value, E> {
-        v.visit_map(MapAcc { doc: self.doc, pos: 0, mode: self.mode })
+        // like serde_json's `end_map`: entries the visitor left unread are an error (trailing characters)
+        let mut acc = MapAcc { doc: self.doc, pos: 0, mode: self.mode };
+        let r = v.visit_map(&mut acc)?;
+        if acc.pos < self.doc.n {
+            return Err(E);
+        }
+        Ok(r)
     }
 }
 impl<'de, 'a> Deserializer<'de> for DocDe<'a> {
@@ -369,8 +375,23 @@ impl<'a> ValDe<'a> {
             Val::Neg(x) => v.visit_i64(x),
             Val::Null => v.visit_unit(),
             Val::Str => v.visit_str("x"),
-            Val::Seq(len) => v.visit_seq(SeqAcc { doc: self.doc, i: 0, len, bad: false }),
-            Val::BadSeq => v.visit_seq(SeqAcc { doc: self.doc, i: 0, len: 1, bad: true }),
+            // like serde_json's `end_seq` / `visit_array`: elements the visitor left unread are an error
+            Val::Seq(len) => {
+                let mut acc = SeqAcc { doc: self.doc, i: 0, len, bad: false };
+                let r = v.visit_seq(&mut acc)?;
+                if acc.i < acc.len {
+                    return Err(E);
+                }
+                Ok(r)
+            }
+            Val::BadSeq => {
+                let mut acc = SeqAcc { doc: self.doc, i: 0, len: 1, bad: true };
+                let r = v.visit_seq(&mut acc)?;
+                if acc.i < acc.len {
+                    return Err(E);
+                }
+                Ok(r)
+            }
         }
     }
 }
